@@ -98,6 +98,13 @@ class OpGen:
         if d:
             return d
         n = self.uid()
+        if self.rng.random() < 0.12:
+            free = [x for x in ("query", "variables", "response", "data", "operation_name") if x not in self.used_vars]
+            if free:
+                name = self.rng.choice(free)
+                self.used_vars.add(name)
+                self.feats.add("var.local_name_clash")
+                return name
         style = self.rng.randrange(4)
         if style == 0:
             return "v%d" % n
@@ -241,8 +248,8 @@ class OpGen:
                 out.append(name)
             elif is_abstract_type(t) and isinstance(ct, GraphQLObjectType) and self.schema.is_sub_type(t, ct):
                 out.append(name)
-            elif is_abstract_type(ct) and "frag.named.on_supertype" in self.dirty and not is_abstract_type(t) and self.schema.is_sub_type(ct, t):
-                out.append(name)
+            elif is_abstract_type(ct) and ct is not t and self.schema.is_sub_type(ct, t):
+                out.append(name)  # fragment on a super-interface / union spread at an object or sub-interface position
         return out
 
     def selection_set(self, t, depth: int) -> str:
@@ -304,6 +311,8 @@ class OpGen:
                     cond = self.frags[name][0]
                     if cond == t.name:
                         self.feats.add("frag.named.same_type" + ("_with_inline" if self.frag_has_inline.get(name) else ""))
+                    elif is_abstract_type(self.schema.type_map[cond]) and self.schema.is_sub_type(self.schema.type_map[cond], t):
+                        self.feats.add("frag.named.on_supertype" + ("_of_interface" if is_abstract_type(t) else ""))
                     else:
                         self.feats.add("frag.named.on_subtype")
             rng.shuffle(sels) if rng.random() < 0.3 else None
@@ -318,7 +327,7 @@ class OpGen:
     # ------------------------------------------------------------------ definitions
     def make_fragments(self, count: int) -> None:
         comps = [t for n, t in self.schema.type_map.items() if is_composite_type(t) and not n.startswith("__")
-                 and t not in (self.schema.query_type, self.schema.mutation_type, self.schema.subscription_type)]
+                 and t not in (self.schema.mutation_type, self.schema.subscription_type)]
         if not comps:
             return
         if "frag.many" in self.dirty:
@@ -344,6 +353,8 @@ class OpGen:
             self.frags[name] = (t.name, "fragment %s on %s%s %s" % (name, t.name, mix, text))
             self.frag_has_inline[name] = "... on" in text or "... {" in text
             kind = "union" if isinstance(t, GraphQLUnionType) else "interface" if isinstance(t, GraphQLInterfaceType) else "object"
+            if t is self.schema.query_type:
+                kind = "root"
             self.feats.add("frag.def.on_" + kind)
 
     def operation(self, kind: str, name: str) -> Optional[str]:
@@ -357,7 +368,17 @@ class OpGen:
             chosen = [self.rng.choice(names)]
         else:
             chosen = self.rng.sample(names, self.rng.randrange(1, min(3, len(names)) + 1))
+        root_frag = None
+        if kind == "query" and self.use_fragments:
+            app = [n for n, (cond, _) in self.frags.items() if cond == root.name]
+            if app and self.rng.random() < 0.6:
+                root_frag = self.rng.choice(app)
+                if self.rng.random() < 0.5:
+                    chosen = chosen[:1]  # a root fragment plus exactly one direct field
         sels = [self.field(root, f, self.max_depth, no_directive=(kind == "subscription")) for f in chosen]
+        if root_frag:
+            sels.insert(self.rng.randrange(0, len(sels) + 1), "..." + root_frag)
+            self.feats.add("frag.named.on_root")
         if kind != "subscription" and self.rng.random() < 0.05:
             sels.append("__typename")
             self.feats.add("typename.root")
